@@ -51,27 +51,42 @@ def _f32(x):
 
 
 def isclose(a, b, rel, abs_):
-    """"constants agree within the stated tolerance": math.isclose with the tolerances given in the pattern, on the
-    python float the matcher reads from the tensor (the generators keep 3% away from the bound, where the exact
-    rational reading used by the Coq model gives the same verdict)."""
-    import math
-    return math.isclose(float(a), float(b), rel_tol=float(rel), abs_tol=float(abs_))
+    """"constants agree within the stated tolerance": |a - b| <= max(rel * max(|a|, |b|), abs) with the tolerances given
+    in the pattern, evaluated EXACTLY (rationals) on the float32 value stored in the tensor and the python float of the
+    pattern -- not through math.isclose, which is what the matcher calls.  (The generators leave out the values on
+    which the double rounding inside math.isclose decides differently from the exact reading; they are counted.)"""
+    a, b, rel, abs_ = Fraction(a), Fraction(b), Fraction(rel), Fraction(abs_)
+    return abs(a - b) <= max(rel * max(abs(a), abs(b)), abs_)
+
+
+def const_view(c):
+    """(shape, elements in row-major order) of a host constant; None for a constant that is not read."""
+    if c == "other":
+        return None
+    if isinstance(c, dict):
+        return tuple(int(d) for d in c["shape"]), list(c["data"])
+    if isinstance(c, (list, tuple)):
+        return (len(c),), list(c)
+    return (), [c]
 
 
 def const_ok(H, pv, v):
+    """A list constant stands for a rank-1 tensor of exactly that length whose elements agree within the tolerance;
+    a scalar constant for a 0-d tensor."""
     if v not in H.consts:
         return False
-    c = H.consts[v]
-    if c == "other":
+    view = const_view(H.consts[v])
+    if view is None:
         return False
+    shape, data = view
     value, rel, abs_ = pv[2], pv[3], pv[4]
     if isinstance(value, (list, tuple)):
-        if not isinstance(c, (list, tuple)) or len(c) != len(value):
+        if len(shape) != 1 or shape[0] != len(value) or len(data) != len(value):
             return False
-        return all(isclose(_f32(x), p, rel, abs_) for x, p in zip(c, value))
-    if isinstance(c, (list, tuple)):
+        return all(isclose(_f32(x), p, rel, abs_) for x, p in zip(data, value))
+    if len(shape) != 0:
         return False
-    return isclose(_f32(c), value, rel, abs_)
+    return isclose(_f32(data[0]), value, rel, abs_)
 
 
 def spat_matches(sp, s):
@@ -570,8 +585,9 @@ def committed_match(P, H, roots, root0, rm):
     lists = [[root0]]
     for r in roots[1:]:
         np_ = P["nodes"][r]
+        known = np_["op"][0] == "exact" and np_["dom"][0] == "exact"       # constant operator and domain: candidates by operator
         lists.append([n for n in range(len(H.nodes)) if H.own(n)
-                      and (np_["op"][0] != "exact" or (H.nodes[n]["op"] == np_["op"][1] and (H.nodes[n].get("dom") or "") == np_["dom"][1]))])
+                      and (not known or (H.nodes[n]["op"] == np_["op"][1] and (H.nodes[n].get("dom") or "") == np_["dom"][1]))])
     try:
         for cand in itertools.product(*lists):
             st = ({}, {}, [])
